@@ -1,6 +1,7 @@
 CONSTANTS
   Ts = {0, 1, 4, 6, 7, 8, 14}
   Ds = {0, 1, 2, 3, 5, 6, 7, 9, 10, 12, 13, 15, 20, 999}
+  Ls = {0, 3}
   Poll = 6
   Inf = 999
   Results = {"C", "F", "E", "S"}
